@@ -17,7 +17,8 @@ RULE = ("directed enumeration split over the shards: every message length 0..400
         "DST lengths 0..255 and 256/257/300/511/1000, message lengths 0..300, the ell = 255/256 boundary; AES-CBC for key "
         "sizes 16/24/32 x plaintext lengths 0..64 (+ a few longer) with exact / larger / one-short output capacities, "
         "decryption of the model's ciphertext, every single-byte corruption (16 positions x 255 values) of the last "
-        "ciphertext block judged by the model's unpadding, targeted changes of the "
+        "ciphertext block judged by the model's unpadding (quick tier: exhaustive for plaintext lengths 0..17 and "
+        "those = 0, 1, 15 mod 16, 32 values per position otherwise), targeted changes of the "
         "padding bytes through the preceding block / IV, invalid key and ciphertext lengths.  Message, key and IV bytes "
         "are random or patterned (zero, 0xFF, 0x80, counting) per seed.  Every buffer is an exact-size malloc block. "
         "distinct = distinct (function, class, inputs)")
@@ -434,8 +435,11 @@ def run(ctx, part):
         ct = mdbc.cbc_encrypt_raw(rk, iv, mdbc.pkcs7_pad(pt))
         prev = ct[-32:-16] if len(ct) >= 32 else iv
         head = mdbc.pkcs7_pad(pt)[:-16]
+        # quick tier: every value at every position for plaintext lengths 0..17 and those congruent 0, 1, 15 mod 16
+        # (all sixteen padding lengths occur), 32 random values per position otherwise; thorough tier: everything
+        full = (not quick) or n <= 17 or n % 16 in (0, 1, 15)
         for pos in range(16):
-            for v in range(1, 256):
+            for v in (range(1, 256) if full else rng.sample(range(1, 256), 32)):
                 last = bytearray(ct[-16:])
                 last[pos] ^= v
                 padded = head + bytes(a ^ b for a, b in zip(mdbc.decrypt_block(rk, bytes(last)), prev))
